@@ -637,6 +637,19 @@ impl private::StoreCallbacks<AnnotationDataSet> for AnnotationStore {
             }
         }
         self.dataset_annotation_metamap.remove_all(handle);
+        //remove annotations that point at keys or data in this set
+        let mut annotations: BTreeSet<AnnotationHandle> = BTreeSet::new();
+        if let Some(map) = self.key_annotation_metamap.data.get(handle.as_usize()) {
+            annotations.extend(map.data.iter().flatten().copied());
+        }
+        if let Some(map) = self.data_annotation_metamap.data.get(handle.as_usize()) {
+            annotations.extend(map.data.iter().flatten().copied());
+        }
+        for a_handle in annotations {
+            self.remove_cascaded(a_handle)?;
+        }
+        self.key_annotation_metamap.remove_all(handle);
+        self.data_annotation_metamap.remove_all(handle);
         Ok(())
     }
 }
